@@ -779,7 +779,10 @@ inline void Exec(const Plan & plan, RunResult & res)
       const bool okB = h.AllSequencesMatch(whyB);
       const std::string how = std::string(perfect ? "no fault fired in this run" : "only would-blocks fired in this run (every packet written was delivered once and in order)") + " [" + h.ConfigSummary() + "]";
       if ((!okB)&&(perfect)) h.Violate("perfect_mismatch", how + ", yet " + whyB);
-      if (!okB) h.Finding("wouldblock_mismatch", how + ", yet " + whyB);
+      // (would-block + mini-tunnel compression is a finding of its own: a packet held back after its deflate did not pay keeps a header that says "not
+      //  compressed"; when more chunks are appended and the deflate now pays, the receiver cannot parse the packet.  Its class names the configuration.)
+      if ((!okB)&&(h.mini)&&(h.zl > 0)) h.Finding("wouldblock_mismatch_mini_zlib", how + ", yet " + whyB);
+      else if (!okB) h.Violate("wouldblock_mismatch", how + ", yet " + whyB);
       else if (!okA) h.Finding("stuck_after_would_block", how + ", yet " + why + " until DoOutput() was called on a gateway whose HasBytesToOutput() was false: a packet held back after a would-block is not reported as pending output");
       for (int s=0; s<h.senders; s++)
       {
